@@ -106,6 +106,9 @@ func validateConfig(c *TransportConfig) error {
 	if len(c.TransportMap) == 0 {
 		return errors.New("transport map cannot be empty")
 	}
+	if _, ok := c.TransportMap[c.InitialTransportID]; !ok {
+		return errors.New("initial transport ID must be a member of the transport map")
+	}
 	for _, t := range c.TransportMap {
 		if t.NegotiationParams().TransportGroupID == "" {
 			return errors.New("transport group ID cannot be empty")
@@ -158,6 +161,10 @@ func (m *Transport) transportIDLoop() {
 	m.logger.Infof(m.ctx, "Starting transport ID loop")
 	defer m.logger.Infof(m.ctx, "Stopping transport ID loop")
 	for id := range ch.ReadOrDone(m.ctx, m.transportIDCh) {
+		if _, ok := m.transportMap[id]; !ok {
+			m.logger.Warnf(m.ctx, "Ignoring unknown transport ID %q", id)
+			continue
+		}
 		m.mu.Lock()
 		if m.currentTransportID != id {
 			m.logger.Infof(m.ctx, "Switching transport to %s", id)
